@@ -335,7 +335,7 @@ int parse_instruction_java(AsmContext *asm_context, char *instr)
           return 1;
         case JAVA_OP_CONSTANT_INDEX:
           add_bin8(asm_context, n, IS_OPCODE);
-          return parse_num8(asm_context, instr, 0, 0xff);
+          return parse_num16(asm_context, instr, 0, 0xffff);
         case JAVA_OP_FIELD_INDEX:
         case JAVA_OP_INTERFACE_INDEX:
         case JAVA_OP_METHOD_INDEX:
